@@ -34,6 +34,23 @@ if [ -n "$NEEDRACE" ]; then
   RACEBIN="$SCRATCH/harness-race"
 fi
 
+if [ "$PROP" = "selftest" ]; then
+  # (a) simrt's own tests, plain and under -race; (b) the repository's suite on the transformed tree,
+  # baseline schedule and three seeded schedules; (c) determinism across processes / GOMAXPROCS;
+  # (d) transformed-tree-under-simulator vs untransformed-tree-on-Go-runtime on generated inputs
+  (cd "$VERIF/simrt" && go test -count=1 . && go test -race -count=1 .) || { echo "SELFTEST FAILED: simrt unit tests"; exit 2; }
+  for s in "" 1 2 3; do
+    (cd "$SCRATCH/repo" && VERIF_SEED=$s VERIF_NUMCPU=3 go test -vet=off -count=1 $(go list ./... | grep -v zverif) > "$SCRATCH/suite.log" 2>&1) || { cat "$SCRATCH/suite.log"; echo "SELFTEST FAILED: repository test suite on the transformed tree (VERIF_SEED='$s')"; exit 2; }
+    echo "selftest: repository test suite passes on the transformed tree under the simulator (schedule seed '${s:-baseline}')"
+  done
+  rsync -a --exclude .git "$REPO/" "$SCRATCH/real/" || exit 2
+  printf '\nrequire verif/simrt v0.0.0\n\nreplace verif/simrt => %s\n' "$VERIF/simrt" >> "$SCRATCH/real/go.mod"
+  mkdir -p "$SCRATCH/real/zverif" && cp "$VERIF"/harness/*.go "$SCRATCH/real/zverif/"
+  (cd "$SCRATCH/real" && go build -tags realtree -o "$SCRATCH/harness-real" ./zverif) > "$SCRATCH/build-real.log" 2>&1 || { cat "$SCRATCH/build-real.log"; echo "SELFTEST FAILED: realtree build"; exit 2; }
+  "$SCRATCH/harness" selftest -realbin "$SCRATCH/harness-real" 2>/dev/null
+  exit $?
+fi
+
 case "$MODE" in
   --replay)
     if [ -n "$RACEBIN" ]; then
@@ -43,10 +60,6 @@ case "$MODE" in
     "$SCRATCH/harness" replay "${3:?replay file}"
     exit $? ;;
   quick|thorough)
-    if [ "$PROP" = "selftest" ]; then
-      "$SCRATCH/harness" selftest -verif "$VERIF" -scratch "$SCRATCH" "${@:2}"
-      exit $?
-    fi
     "$SCRATCH/harness" check -prop "$PROP" -tier "$MODE" -seed "${VERIF_SEED:-1}" -workers "${VERIF_WORKERS:-16}" -verif "$VERIF" -scratch "$SCRATCH" -racebin "$RACEBIN"
     exit $? ;;
   *)
